@@ -11,7 +11,7 @@ are only flattened/concatenated); I4 the canvas covers both drawings: C12.M1.  N
 equality effects inside one span."""
 import re
 
-from ..common import field_accesses, find_nodes, is_derived_impl, short, src_fn, where
+from ..common import guards, field_accesses, find_nodes, is_derived_impl, short, src_fn, where
 from ..exprs import closure_of, mentions, strip
 from ..mirlib import Expr, Program, expr_str, op_const
 
@@ -148,6 +148,30 @@ def run(run):
             rr = [strip(r) for r in Expr(prog, c2).returns()]
             exact = len(rr) == 1 and rr[0][0] == "call" and rr[0][1] == adj and {strip(a)[1] for a in rr[0][2] if strip(a)[0] == "param"} == {1, 2}
             why = None if exact else "the innermost test is `%s`" % (expr_str(rr[0])[:80] if rr else "?")
+        if not exact:
+            # the same test written as two nested `for` loops with `return true` inside and `false` after them
+            cex = Expr(prog, cm)
+            rets = sorted(str(strip(r)) for r in cex.returns())
+            if rets == [str(("const", "int", 0)), str(("const", "int", 1))]:
+                ITER = re.compile(r"::(next|into_iter|iter|rev|deref)$")
+                seen_params, adj_guard, other = set(), 0, []
+                for blk in prog.bodies[cm]["blocks"]:
+                    if blk.get("cleanup") or not any(st.get("dst") and st["dst"]["l"] == 0 and not st["dst"]["p"] for st in blk["stmts"]):
+                        continue
+                    for cond, tk, sw in guards(prog, cm, blk["id"]):
+                        c = strip(cond)
+                        names = []
+                        mentions(c, lambda z: z[0] == "call" and names.append(z[1]) and False)
+                        if c[0] == "discr" and names and all(ITER.search(n) for n in names):
+                            mentions(c, lambda z: z[0] == "param" and seen_params.add(z[1]) and False)
+                        elif c[0] == "call" and c[1] == adj and all(ITER.search(n) or n == adj for n in names):
+                            adj_guard += 1
+                        else:
+                            other.append(expr_str(c)[:80])
+                if not other and adj_guard and {1, 2} <= seen_params:
+                    exact, uses_adj, why = True, True, None
+                elif other:
+                    why = "an additional condition decides: `%s`" % other[0]
         if cm in calls and uses_adj and exact:
             run.ok("C10.I2", "Span::merge merges iff some cell of one span is adjacent to some cell of the other", where(prog.bodies[cm]))
         elif cm in calls and uses_adj:
